@@ -190,6 +190,31 @@ pub fn gen_history(r: &mut Rng, cfg: &GenCfg) -> Vec<Value> {
     out
 }
 
+/// Events of a "large graph" size class: a few more nodes (optionally a bulk of them), one
+/// bulk creation of more than `64 * words` relationships (so relationship ids cross that
+/// many 64-id boundaries) and a bulk deletion among the relationships that exist when it
+/// runs (ids are not reused unless something is created afterwards, so the id space of the
+/// survivors has gaps and can be sparser than one id per live relationship).
+/// Returns (events to put right after the first node, the bulk deletion to put at or after
+/// them).  Everything an event does is a function of the event's own numbers.
+pub fn gen_bulk(r: &mut Rng, words: u64) -> (Vec<Value>, Value) {
+    let mut out = Vec::new();
+    if r.chance(1, 2) {
+        out.push(json!({"op":"bulk_nodes","count":r.range(3, 8)}));
+    } else {
+        // node ids cross a 64-id boundary as well
+        out.push(json!({"op":"bulk_nodes","count":r.range(60, 140)}));
+    }
+    let extra = r.below(13);
+    let via = ["api", "stub", "mix", "mix"][r.usize_below(4)];
+    out.push(json!({"op":"bulk_edges","count":64 * words + extra,"via":via,"seed":r.below(1 << 24)}));
+    // deletions: mostly a few (around the number of ids past the boundary), sometimes many
+    let dels = if r.chance(1, 5) { r.range(20, 70) as u64 } else { 1 + r.below(16) };
+    let stride = [1u64, 1, 2, 7][r.usize_below(4)];
+    let del = json!({"op":"bulk_del_edges","from":r.below(256),"count":dels,"stride":stride});
+    (out, del)
+}
+
 /// Simpler variants of one builder event, for the shrinker.
 pub fn shrink_builder_event(ev: &Value) -> Vec<Value> {
     let mut out = Vec::new();
@@ -236,6 +261,33 @@ pub fn shrink_builder_event(ev: &Value) -> Vec<Value> {
             }
         }
         "finish_bulk_load" => out.push(json!({"op":"compact"})),
+        "bulk_nodes" | "bulk_edges" | "bulk_del_edges" => {
+            let c = u(ev, "count");
+            for smaller in [c / 2, c.saturating_sub(8), c.saturating_sub(1)] {
+                if smaller < c && smaller > 0 {
+                    let mut e = ev.clone();
+                    e["count"] = json!(smaller);
+                    out.push(e);
+                }
+            }
+            if kind == "bulk_edges" && ev["via"] != json!("api") {
+                let mut e = ev.clone();
+                e["via"] = json!("api");
+                out.push(e);
+            }
+            if kind == "bulk_del_edges" {
+                if u(ev, "stride") > 1 {
+                    let mut e = ev.clone();
+                    e["stride"] = json!(1);
+                    out.push(e);
+                }
+                if u(ev, "from") > 0 {
+                    let mut e = ev.clone();
+                    e["from"] = json!(0);
+                    out.push(e);
+                }
+            }
+        }
         "hier" => {
             if !ev["measure"].is_null() {
                 let mut e = ev.clone();
@@ -532,6 +584,100 @@ impl Builder {
                 let e = ids[(u(ev, "e") as usize) % ids.len()];
                 if self.g.delete_edge(EdgeId::new(e)).is_ok() {
                     self.count("deleted");
+                }
+                true
+            }
+            "bulk_nodes" => {
+                // `count` labelled nodes through the full API (labels rotate over A/B/C)
+                let count = u(ev, "count").min(400);
+                for i in 0..count {
+                    let mut pm = PropertyMap::new();
+                    let key = if self.auto_id {
+                        let k = self.next_key;
+                        self.next_key += 1;
+                        pm.insert(ID_KEY.to_string(), PropertyValue::Integer(k));
+                        k
+                    } else {
+                        -1
+                    };
+                    let id = self.g.create_node_with_properties("default", vec![Label::new(LABELS[(i % 3) as usize])], pm);
+                    self.live.push((id.as_u64(), key));
+                }
+                if count > 0 {
+                    self.count("bulk_nodes");
+                }
+                count > 0
+            }
+            "bulk_edges" => {
+                // `count` relationships between live nodes chosen by rank from the event's
+                // own numbers; route per relationship: full API without / with one property,
+                // or the stub API ("mix" rotates over the three)
+                if self.live.is_empty() {
+                    return false;
+                }
+                let count = u(ev, "count").min(400);
+                let seed = u(ev, "seed");
+                let mut made = 0;
+                for i in 0..count {
+                    let s = self.pick_node((seed & 0xff).wrapping_add(i.wrapping_mul(7))).unwrap();
+                    let t = self.pick_node(((seed >> 8) & 0xff).wrapping_add(i.wrapping_mul(3)).wrapping_add(i / 5)).unwrap();
+                    let ty = TYPES[(((seed >> 16) + i) as usize) % TYPES.len()];
+                    let route = match via {
+                        "stub" => 2,
+                        "mix" => i % 3,
+                        _ => i % 2,
+                    };
+                    let (sn, tn) = (NodeId::new(s.0), NodeId::new(t.0));
+                    let ok = match route {
+                        2 => {
+                            let r = self.g.create_edge_stub(sn, tn, ty).is_ok();
+                            if r {
+                                self.count("stub_edge");
+                            }
+                            r
+                        }
+                        1 => {
+                            let mut pm = PropertyMap::new();
+                            pm.insert("p".to_string(), PropertyValue::Integer(i as i64));
+                            self.g.create_edge_with_properties(sn, tn, ty, pm).is_ok()
+                        }
+                        _ => self.g.create_edge(sn, tn, ty).is_ok(),
+                    };
+                    if ok {
+                        made += 1;
+                        self.count("edge");
+                    }
+                }
+                if made > 0 {
+                    self.count("bulk_edges");
+                }
+                made > 0
+            }
+            "bulk_del_edges" => {
+                // delete `count` of the relationships that exist now, by rank in id order:
+                // from, from+stride, ... (modulo what exists)
+                if self.sealed {
+                    return false;
+                }
+                let ids: Vec<u64> = self.g.all_edges().iter().map(|e| e.id.as_u64()).collect();
+                if ids.is_empty() {
+                    return false;
+                }
+                let (from, stride) = (u(ev, "from") as usize, (u(ev, "stride") as usize).max(1));
+                let count = (u(ev, "count") as usize).min(ids.len());
+                let mut victims: BTreeSet<u64> = BTreeSet::new();
+                for j in 0..count {
+                    victims.insert(ids[(from + j * stride) % ids.len()]);
+                }
+                let mut n = 0;
+                for e in victims {
+                    if self.g.delete_edge(EdgeId::new(e)).is_ok() {
+                        self.count("deleted");
+                        n += 1;
+                    }
+                }
+                if n > 0 {
+                    self.count("bulk_deleted");
                 }
                 true
             }
@@ -991,6 +1137,12 @@ pub fn classify(orig: &GraphStore, imp: &GraphStore) -> Vec<(String, String)> {
                 "edge/lost"
             } else if a.is_empty() {
                 "edge/appeared"
+            } else if b.len() > a.len() && {
+                // every original relationship of the group is still there, plus extra copies
+                let mut rest: Vec<String> = b.iter().map(props_canon).collect();
+                a.iter().all(|p| rest.iter().position(|q| *q == props_canon(p)).map(|i| rest.swap_remove(i)).is_some())
+            } {
+                "edge/duplicated"
             } else {
                 "edge/multiplicity_changed"
             };
